@@ -149,8 +149,8 @@ Proof.
   - destruct (pi_is_last pi1); [exact Hout|].
     destruct (check_permission m OpenLookup (v_user v)); [|exact Hout]. now apply IH.
   - destruct (pi_is_last pi1); exact Hout.
-  - destruct (Nat.ltb slCountMax (S sl)); [exact Hout|].
-    destruct (pi_is_last pi1 && slmode_eqb slm SlLstat); [exact Hout|].
+  - destruct (pi_is_last pi1 && slmode_eqb slm SlLstat); [exact Hout|].
+    destruct (Nat.ltb slCountMax (S sl)); [exact Hout|].
     pose proof (pi_replace_part_rooted pi1 lk Hr1) as H2. rewrite Hst in H2. specialize (H2 ltac:(lia)).
     destruct (pi_replace_part Linux pi1 lk) as [reset pi2]. cbn [snd] in H2.
     apply IH; auto.
@@ -348,9 +348,9 @@ Proof.
       destruct (check_permission m OpenLookup (v_user v)); [|apply Hres; [exact Hne | discriminate]].
       apply IH. now apply Hdesc.
     + destruct (pi_is_last pi1) eqn:El; (apply Hres; [exact Hne | auto; discriminate]).
-    + destruct (Nat.ltb slCountMax (S sl)); [apply Hres; [exact Hne | discriminate]|].
-      destruct (pi_is_last pi1 && slmode_eqb slm SlLstat) eqn:Ell;
+    + destruct (pi_is_last pi1 && slmode_eqb slm SlLstat) eqn:Ell;
         [apply Hres; [exact Hne | intros _; now apply Bool.andb_true_iff in Ell]|].
+      destruct (Nat.ltb slCountMax (S sl)); [apply Hres; [exact Hne | discriminate]|].
       assert (Hsaved : (if pi_is_last pi1 && slmode_eqb slm SlStat then Some pi1 else None) = None).
       { destruct slm; try congruence; now rewrite Bool.andb_false_r. }
       rewrite Hsaved.
